@@ -10,7 +10,7 @@ from ..pool import guarded, run_cases
 
 THEOREMS = ["C01_default_in_prose", "C01_default_announced_once", "C01_default_stripped", "C01_quote_idempotent", "C01_example",
             "C01_rest_scan_lossless", "C01_rest_scan_splits_at_tokens", "C01_rest_emit_canonical", "C01_rest_parse_canonical",
-            "C01_rest_roundtrip", "C01_rest_roundtrip_no_types", "C01_rest_example"]
+            "C01_rest_roundtrip", "C01_rest_roundtrip_return_only", "C01_rest_roundtrip_no_types", "C01_rest_example"]
 # no " of " / " or ": those make _set_name_and_type infer a type from the prose (parse_adhoc_doc_for_typ, C17's subject), outside Model/RestDoc.v
 REST_WORDS = ["the", "size", "within", "buffer", "in", "bytes", "name", "used", "for", "lookup", "how", "many", "items", "(optional)", "e.g.", "a-b",
               "x_y", "[units]", "100%", "fast;", "slow,", "path/to", "it's", '"quoted"', "param", "type", "return", "rtype", "3.5", "N/A", "é"]
@@ -193,8 +193,8 @@ def rest_entry(rng):
 
 def rest_case(rng):
     """a description of the domain of theorem C01_rest_roundtrip: clean prose, distinct plain names, at least one parameter"""
-    ps = [[n, rest_entry(rng)] for n in rng.sample(REST_NAMES, rng.randint(1, 5))]
-    return {"doc": rest_text(rng), "params": ps, "ret": rest_entry(rng) if rng.random() < 0.5 else None,
+    ps = [[n, rest_entry(rng)] for n in rng.sample(REST_NAMES, rng.randint(0, 5))]
+    return {"doc": rest_text(rng), "params": ps, "ret": rest_entry(rng) if (not ps or rng.random() < 0.5) else None,
             "scan": "".join(rng.choice(SCAN_ALPHABET) for _ in range(rng.randint(0, 14)))}
 
 
